@@ -12,6 +12,21 @@ NOT_APPLICABLE = {
 }
 
 PROPERTIES = {
+    "C08": {
+        "modules": ["harness.c08"],
+        "explanation": "",
+        "assumptions": COMMON_ASSUMPTIONS + [
+            "assume-guarantee: certificate loading and chain validation are replaced by a summary returning any result map that C06 / C07 / "
+            "C16 allow (target present or not, valid or not, with harness-chosen signed message and tweak)",
+            "secp256k1 public keys in admin.attestation_utils are tokens; hashlib is real (concrete inputs); files are in memory; "
+            "info/head output is captured instead of written to stdout; the root of trust is a stub that parses / self-validates or not",
+            "one input group symbolic per partition (UI target | signer target | keys file and root)",
+        ],
+        "level_text": "bounded symbolic verification of both verify commands: presence / validity of targets, header (7 variants each), message "
+                      "length delta -3..+3, key and keys-hash equality, keys-file variants and root validity are solver variables; oracle = "
+                      "the conjunction of the statement and the documented offsets of the printed values",
+        "level_note": "trusted: CrossHair/z3, the summary standing for certificate validation, key tokens",
+    },
     "C07": {
         "modules": ["harness.c07"],
         "explanation": "",
